@@ -24,6 +24,7 @@ sys.path.insert(0, os.path.join(VERIF, "extract"))
 from gen import Gen, scan_trusted, TemplateError  # noqa: E402
 from rustsrc import AnchorLost, mask, match_close  # noqa: E402
 import kani_run  # noqa: E402
+import replay_run  # noqa: E402
 
 REPO = os.environ.get("VERIF_REPO", "/repo")
 VERUS = os.environ.get("VERIF_VERUS", "verus")
@@ -342,6 +343,23 @@ def main():
             nerr = u["vr"].get("errors", 0)
             if u["hard"]:
                 undecided.append("unit %s: verus rejected the generated file (unsupported construct or type error): %s" % (unit, "; ".join(h["message"][:160] for h in u["hard"][:3])))
+                # bounded stand-in: the function is outside the verifier's reach as written; run the unit's
+                # concrete driver on the real code (a failure there is a violation WITH a failing input;
+                # a pass does not turn undecided into proved)
+                names = replay_run.UNIT_DRIVERS.get(unit)
+                if names:
+                    rr = replay_run.run_drivers(REPO, VERIF, names, outdir)
+                    cmds.append(rr["cmd"])
+                    for n in names:
+                        j = rr["results"].get(n)
+                        if not j:
+                            undecided.append("unit %s: bounded stand-in %s produced no result (%s)" % (unit, n, rr.get("error")))
+                            continue
+                        cov["bounded"].append({"driver": n, "why": "stand-in for unit %s (verus could not take the current text)" % unit, "cases": j.get("cases"), "distinct_nontrivial": j.get("distinct_nontrivial"), "failures": len(j.get("failures", [])), "bound": "stated in the header of replay/%s.rs" % n.split("::")[0]})
+                        if j.get("failures"):
+                            violations.append({"obligation": "bounded::%s" % n, "kind": "bounded", "function": n, "label": None, "unit": unit, "clause": "real code vs executable contract on enumerated inputs",
+                                               "message": "bounded check on the real code found a failing input (verus could not process the changed text)", "rendered": json.dumps(j["failures"][:3])[:3000], "site_text": "",
+                                               "counterexample": {"driver": n, "failing_input": j["failures"][0], "cases_tried": j.get("cases")}})
             if u["resource"] and not u["fails"]:
                 undecided.append("unit %s: solver resource limit: %s" % (unit, u["resource"][:2]))
             if u["unstable"]:
@@ -415,6 +433,21 @@ def main():
                     undecided.append("unit %s: vacuous contract (assert(false) verifies) in: %s" % (unit, tw["vacuous"]))
                 if tw["checked"] == 0:
                     undecided.append("unit %s: vacuity guard could not check any function" % unit)
+        # ---- configured bounded drivers (labelled bounded, never counted as proved)
+        bcfg = [b for b in cfg.get("bounded", []) if args.tier == "thorough" or b.get("tier", "thorough") == "quick"]
+        if bcfg and not args.no_kani:
+            rr = replay_run.run_drivers(REPO, VERIF, [b["driver"] for b in bcfg], outdir)
+            cmds.append(rr["cmd"])
+            for b in bcfg:
+                j = rr["results"].get(b["driver"])
+                if not j:
+                    undecided.append("bounded driver %s produced no result (%s)" % (b["driver"], rr.get("error")))
+                    continue
+                cov["bounded"].append({"driver": b["driver"], "what": b.get("what", ""), "bound": b.get("bound", ""), "cases": j.get("cases"), "distinct_nontrivial": j.get("distinct_nontrivial"), "failures": len(j.get("failures", []))})
+                if j.get("failures"):
+                    violations.append({"obligation": "bounded::%s" % b["driver"], "kind": "bounded", "function": b["driver"], "label": None, "unit": "replay", "clause": b.get("what", ""),
+                                       "message": "bounded check on the real code found a failing input", "rendered": json.dumps(j["failures"][:3])[:3000], "site_text": "",
+                                       "counterexample": {"driver": b["driver"], "failing_input": j["failures"][0], "cases_tried": j.get("cases")}})
         # ---- Kani harnesses
         kcfg = cfg.get("kani")
         if kcfg and not args.no_kani:
